@@ -121,7 +121,8 @@ def do_query(db, feats, q):
             sq = None
         got = sorted(f.id for f in got)
         want = brute(feats, sq, a, b, within, want_strand, fts)
-        cmd = "region %s %d %d %s %s %s" % ("~" if sq is None else enc(sq), a, b, "~" if want_strand is None else enc(want_strand),
+        cmd = "region %s %d %d %s %s %s" % ("~" if sq is None else enc(sq), a, b,
+                                            "~" if want_strand is None else enc(want_strand),
                                             "~" if fts is None else enc_list(fts), "1" if within else "0")
         return got, want, cmd
     if kind == "one_sided":
@@ -173,7 +174,8 @@ def check_one_sided(case, feats, q, got, res):
     bad = [x for x in got if x in outside or x not in [f["id"] for f in onseq]]
     miss = [x for x in beyond if x not in got]
     if bad or miss or len(got) != len(set(got)):
-        common.fail(res, case, "one_sided_region_wrong", "one-sided region: returned a feature outside the half-line, or missed "
+        common.fail(res, case, "one_sided_region_wrong",
+                    "one-sided region: returned a feature outside the half-line, or missed "
                     "one strictly beyond the bound", observed=got, outside=bad, missing=miss)
 
 
@@ -184,7 +186,8 @@ def check_query(case, db, feats, res):
     try:
         got, want, cmd = do_query(db, feats, q)
     except Exception as ex:
-        common.fail(res, case, "query_raised", "%s raised %r" % (q["query"], ex), error=dbside.err_name(ex), observed=repr(ex))
+        common.fail(res, case, "query_raised",
+                    "%s raised %r" % (q["query"], ex), error=dbside.err_name(ex), observed=repr(ex))
         return "raised", None, None, None
     if want is None:
         check_one_sided(case, feats, q, got, res)
@@ -222,7 +225,8 @@ def judge(ctx, case):
     path = dbside.write_lines(os.path.join(ctx.scratch, "c06.gff3"), lines)
     db, rep = dbside.py_create(path, dbside.Cfg.from_json(case["config"]))
     if db is None:
-        common.fail(res, case, "create_db_raised", "create_db raised on a plain GFF3 feature set: " + rep, error=rep, observed=rep)
+        common.fail(res, case, "create_db_raised",
+                    "create_db raised on a plain GFF3 feature set: " + rep, error=rep, observed=rep)
         return res
     if case["scenario"] != "query":
         return res
